@@ -204,6 +204,7 @@ func RunOps(path string, w *bufio.Writer, g *Gen) error {
 		case "E":
 			p := e.ParseStruct(fs[3])
 			vstr := e.DumpStruct(p)
+			vsegs := e.DumpSegs(p)
 			er := e.Encode(p)
 			if er.Panic != "" {
 				fmt.Fprintf(w, "X %d %d encode-panic %s %s\n", e.Pi, e.Mi, vstr, strconv.Quote(er.Panic))
@@ -211,7 +212,7 @@ func RunOps(path string, w *bufio.Writer, g *Gen) error {
 			}
 			b := er.Wire.Join()
 			fmt.Fprintf(w, "E %d %d %s %s %d\n", e.Pi, e.Mi, vstr, hexOrDash(b), er.Length)
-			e.emitEW(w, p, er)
+			e.emitEW(w, vsegs, er)
 			e.emitD(w, g, b, false, "rt:"+vstr, "rt")
 		case "D":
 			ic := fs[3] == "1"
